@@ -420,17 +420,15 @@ def convTransposeLayer (c : ConvTCfg) (x k : Tensor R) (bias mask : Option (Tens
 
 /-! ## 7. `lax.dot_general` specification, `DenseGeneral` / `LinearGeneral`, `Dense` -/
 
-/-- place the entries of `vals` at the positions `pos` of a list of length `n`, filling the other positions
-from `rest` in order -/
+/-- build an index of length `n`: position `p` takes the value paired with `p` in `assign` if there is one, otherwise
+the next unused entry of `rest` (the `t`-th unassigned position takes `rest[t]`) -/
+def scatterAt (assign : List (Nat × Nat)) (rest : List Nat) (p : Nat) : Nat :=
+  match assign.find? (fun q => q.1 = p) with
+  | some q => q.2
+  | none => rest.getD ((List.range p).filter (fun j => (assign.find? (fun q => q.1 = j)).isNone)).length 0
+
 def scatterIdx (n : Nat) (assign : List (Nat × Nat)) (rest : List Nat) : List Nat :=
-  let rec go (i : Nat) (fuel : Nat) (rest : List Nat) : List Nat :=
-    match fuel with
-    | 0 => []
-    | fuel + 1 =>
-      match assign.find? (fun p => p.1 = i) with
-      | some p => p.2 :: go (i + 1) fuel rest
-      | none => rest.headD 0 :: go (i + 1) fuel rest.tail
-  go 0 n rest
+  (List.range n).map (scatterAt assign rest)
 
 /-- `lax.dot_general(lhs, rhs, ((lc, rc), (lb, rb)))`: output dims = batch ++ lhs free ++ rhs free -/
 def dotGeneral (lhs rhs : Tensor R) (lc rc lb rb : List Nat) : Tensor R :=
@@ -457,10 +455,31 @@ def consecutiveFromZero (bd : List Int) : Bool :=
     let mx := bd.foldl max 0
     (List.range (mx.toNat + 1)).all (fun i => bd.contains (i : Int)) && bd.all (fun b => decide (0 ≤ b) && decide (b ≤ mx))
 
-/-- `DenseGeneral.__call__` / `LinearGeneral.__call__` given kernel `batch ++ in ++ features` and bias
-`batch ++ features` -/
-def denseGeneral (axis batchDims : List Int) (nFeat : Nat) (x k : Tensor R) (bias : Option (Tensor R)) :
-    Except String (Tensor R) := do
+/-- the value computed by `DenseGeneral.__call__` / `LinearGeneral.__call__` once the configuration is accepted:
+`dot_general(x, K, ((axis, contract_ind), (batch_dims, batch_ind)))` plus the bias reshaped to
+`expanded_batch_shape + features` and broadcast -/
+def denseGeneralCore (axis batchDims : List Int) (x k : Tensor R) (bias : Option (Tensor R)) : Tensor R :=
+  let ndim := x.rank
+  let ax := normalizeAxes ndim axis
+  let bd := normalizeAxes ndim batchDims
+  let nb := bd.length
+  let na := ax.length
+  let out := dotGeneral x k ax ((List.range na).map (· + nb)) bd (List.range nb)
+  match bias with
+  | none => out
+  | some b =>
+    let feats := k.shape.drop (nb + na)
+    -- expanded_batch_shape: batch sizes at batch positions, 1 elsewhere (non-contracted axes, input order)
+    let expanded := ((List.range ndim).filter (fun a => !(ax.contains a))).map
+      (fun a => if bd.contains a then nth x.shape a else 1)
+    let b' := b.reshape (expanded ++ feats)
+    -- numpy broadcasting of `b'` against `out` (same rank)
+    Tensor.ofFn out.shape (fun idx =>
+      out.get idx + b'.get (List.zipWith (fun i d => if d = 1 then 0 else i) idx b'.shape))
+
+/-- the configurations `DenseGeneral` / lax reject -/
+def denseGeneralCheck (axis batchDims : List Int) (nFeat : Nat) (x k : Tensor R) (bias : Option (Tensor R)) :
+    Except String Unit := do
   if !consecutiveFromZero batchDims then throw "BatchDims"
   let ndim := x.rank
   let ax := normalizeAxes ndim axis
@@ -470,19 +489,20 @@ def denseGeneral (axis batchDims : List Int) (nFeat : Nat) (x k : Tensor R) (bia
   if k.rank ≠ nb + na + nFeat then throw "KernelShape"
   if (bd ++ ax).any (fun a => decide (ndim ≤ a)) then throw "Axis"
   if bd.map (nth x.shape ·) ≠ k.shape.take nb ∨ ax.map (nth x.shape ·) ≠ (k.shape.drop nb).take na then throw "KernelShape"
-  let out := dotGeneral x k ax ((List.range na).map (· + nb)) bd (List.range nb)
   match bias with
-  | none => .ok out
+  | none => pure ()
   | some b =>
     let feats := k.shape.drop (nb + na)
-    -- expanded_batch_shape: batch sizes at batch positions, 1 elsewhere (non-contracted axes, input order)
     let expanded := ((List.range ndim).filter (fun a => !(ax.contains a))).map
       (fun a => if bd.contains a then nth x.shape a else 1)
-    let b' := b.reshape (expanded ++ feats)
-    if prod b'.shape ≠ b.data.size then throw "BiasShape"
-    -- numpy broadcasting of `b'` against `out` (same rank)
-    .ok (Tensor.ofFn out.shape (fun idx =>
-      out.get idx + b'.get (List.zipWith (fun i d => if d = 1 then 0 else i) idx b'.shape)))
+    if prod (expanded ++ feats) ≠ b.data.size then throw "BiasShape"
+
+/-- `DenseGeneral.__call__` / `LinearGeneral.__call__` given kernel `batch ++ in ++ features` and bias
+`batch ++ features` -/
+def denseGeneral (axis batchDims : List Int) (nFeat : Nat) (x k : Tensor R) (bias : Option (Tensor R)) :
+    Except String (Tensor R) := do
+  denseGeneralCheck axis batchDims nFeat x k bias
+  pure (denseGeneralCore axis batchDims x k bias)
 
 /-- `Dense` / `Linear`: contraction of the last axis, bias broadcast on the last axis -/
 def dense (x k : Tensor R) (bias : Option (Tensor R)) : Except String (Tensor R) := do
